@@ -131,6 +131,44 @@ func TestVerifReplay(t *testing.T) {
 		}
 	}
 	rec()
+	// pre-release bounds and pre-release probes (pypi decides from the constraints whether pre-releases are admitted at all,
+	// so the outcome must not depend on where an empty constraint, a duplicate or a blank sits)
+	pre := map[string][3][]string{
+		"pypi":    {{">=1.0.0a1", "<=2.0.0"}, {">=1.0.0", "<2.0.0rc1"}, {"1.5.0b1", "2.0.0b2", "1.2.dev3", "1.5.0", "0.9", "2.0.0", "3.0", "1.0.0a1", "2.0.0rc1"}},
+		"npm":     {{">=1.0.0-alpha", "<=2.0.0"}, {">=1.0.0", "<2.0.0-rc.1"}, {"1.5.0-beta", "2.0.0-beta", "1.5.0", "0.9.0", "2.0.0", "3.0.0", "1.0.0-alpha", "2.0.0-rc.1"}},
+		"generic": {{">=1.0.0-alpha", "<=2.0.0"}, {">=1.0.0", "<2.0.0-rc.1"}, {"1.5.0-beta", "2.0.0-beta", "1.5.0", "0.9.0", "2.0.0", "3.0.0", "1.0.0-alpha", "2.0.0-rc.1"}},
+		"maven":   {{">=1.0.0-alpha-1", "<=2.0.0"}, {">=1.0.0", "<2.0.0-rc-1"}, {"1.5.0-beta-1", "2.0.0-beta-1", "1.5.0", "0.9", "2.0.0", "3.0", "1.0.0-alpha-1", "2.0.0-rc-1"}},
+		"deb":     {{">=1.0.0~rc1", "<=2.0.0"}, {">=1.0.0", "<2.0.0~rc1"}, {"1.5.0~beta1", "2.0.0~beta1", "1.5.0", "0.9", "2.0.0", "3.0", "1.0.0~rc1", "2.0.0~rc1"}},
+	}
+	compareP := func(kind, sc, base, variant string, probes []string) {
+		for _, p := range probes {
+			evals[kind]++
+			a, b := eval("vers:"+sc+"/"+base, p), eval("vers:"+sc+"/"+variant, p)
+			if a != b {
+				if _, seen := bad[kind]; !seen {
+					bad[kind] = fmt.Sprintf("Contains(%%q, %%q) = (%%v, error=%%v) but Contains(%%q, %%q) = (%%v, error=%%v)", "vers:"+sc+"/"+base, p, a.ok, a.err, "vers:"+sc+"/"+variant, p, b.ok, b.err)
+				}
+			}
+		}
+	}
+	for _, sc := range schemes {
+		spec, ok := pre[sc]
+		if !ok {
+			continue
+		}
+		for _, cs := range [][]string{spec[0], spec[1]} {
+			base := strings.Join(cs, "|")
+			probes := spec[2]
+			compareP("permutation", sc, base, cs[1]+"|"+cs[0], probes)
+			compareP("whitespace", sc, base, " "+cs[0]+" | "+cs[1]+" ", probes)
+			compareP("duplicates", sc, base, base+"|"+cs[0], probes)
+			compareP("duplicates", sc, base, cs[1]+"|"+base, probes)
+			compareP("empty-constraints", sc, base, "|"+base, probes)
+			compareP("empty-constraints", sc, base, base+"|", probes)
+			compareP("empty-constraints", sc, base, cs[0]+"||"+cs[1], probes)
+			compareP("empty-constraints", sc, base, " |"+cs[0]+"| |"+cs[1]+"| ", probes)
+		}
+	}
 	// ranges that are rejected stay rejected however they are spelled (the error outcome is part of the property)
 	for _, sc := range schemes {
 		for _, r := range [][2]string{{">=2.0.0|>=4.0.0", ">=4.0.0|>=2.0.0"}, {"<2.0.0|<4.0.0", " <4.0.0 | <2.0.0"}, {">=x|<4.0.0", "<4.0.0|>=x"}, {"2.0.0", " 2.0.0 "}, {">=|<4.0.0", "<4.0.0|>="}} {
@@ -192,9 +230,9 @@ func runVersInv(w *World, tier string) *versInvResult {
 }
 
 func (w *World) versInvVCs(tier string) []VC {
-	bound := "5 schemes x every valid comparator shape with 1..3 constraints on different versions x all permutations / 5 white-space spellings / every duplication / 4 empty-constraint spellings x probes at and between the bounds"
+	bound := "5 schemes x every valid comparator shape with 1..3 constraints on different versions x all permutations / 5 white-space spellings / every duplication / 4 empty-constraint spellings x probes at and between the bounds; plus pre-release bounds with pre-release probes for pypi, npm, generic, maven and deb"
 	if tier == "thorough" {
-		bound = "all 11 schemes x every valid comparator shape with 1..4 constraints on different versions x all permutations / 5 white-space spellings / every duplication / 4 empty-constraint spellings x probes at and between the bounds"
+		bound = "all 11 schemes x every valid comparator shape with 1..4 constraints on different versions x all permutations / 5 white-space spellings / every duplication / 4 empty-constraint spellings x probes at and between the bounds; plus pre-release bounds with pre-release probes (pypi, npm, generic, maven, deb)"
 	}
 	var vcs []VC
 	for _, k := range []string{"permutation", "whitespace", "duplicates", "empty-constraints", "invalid-unchanged"} {
